@@ -21,6 +21,8 @@ REGISTRY = {
     "C14": ("props_battery", "check_C14"),
     "C11": ("props_eventqueue", "check_C11"),
     "C18": ("props_analysis", "check_C18"),
+    "C07": ("props_sortedalgo", "check_C07"),
+    "C08": ("props_sortedalgo", "check_C08"),
 }
 
 
